@@ -1,8 +1,25 @@
 #!/bin/bash
 # Offline build of every harness configuration (run once after a fresh restore).
-set -eu
+set -u
 ROOT="$(cd "$(dirname "$0")" && pwd)"
-cd "$ROOT/harness"
 export CARGO_NET_OFFLINE=true
 mkdir -p "$ROOT/target" "$ROOT/evidence" "$ROOT/replays"
-CARGO_TARGET_DIR="$ROOT/target/base" cargo build --release --offline
+fail=0
+b() { # name dir toolchain features rustflags
+  ( cd "$ROOT/$2" && RUSTFLAGS="$5" CARGO_TARGET_DIR="$ROOT/target/$1" cargo $3 build --release --offline --features "$4" >"$ROOT/target/setup-$1.log" 2>&1 ) \
+    || { echo "setup: configuration $1 failed, see $ROOT/target/setup-$1.log"; tail -n 20 "$ROOT/target/setup-$1.log"; return 1; }
+  echo "setup: $1 built"
+}
+b base harness "" "" "" || fail=1
+b hooks harness "" "sched" "--cfg jmespath_rs_verif" & p1=$!
+b cli cli-harness "" "" "" & p2=$!
+b c17-base c17drv "" "" "" & p3=$!
+b c17-sync c17drv "" "sync" "" & p4=$!
+wait $p1 || fail=1; wait $p2 || fail=1; wait $p3 || fail=1; wait $p4 || fail=1
+b c17-spec c17drv "+nightly" "specialized" "" & p5=$!
+b c17-spec-sync c17drv "+nightly" "specialized sync" "" & p6=$!
+( cd "$ROOT/obligations" && CARGO_TARGET_DIR="$ROOT/target/obligations" cargo build --offline >"$ROOT/target/setup-obligations.log" 2>&1 ) || fail=1
+wait $p5 || fail=1; wait $p6 || fail=1
+# the reference model must reproduce the compliance fixtures
+"$ROOT/target/base/release/jpv" bind quick || fail=1
+exit $fail
